@@ -36,7 +36,7 @@ deriving Repr, DecidableEq
 /-- the results `NextPackage` can return at once in this state (empty list = the call blocks) -/
 def nextPackage (sel : List String) (closedFirst : Bool) (s : NpState) : List NpResult :=
   if closedFirst && s.closed then [.closed]
-  else if s.queued > 0 then [.pkg]                         -- the non-blocking first look
+  else if nextPackageLooksAtQueueFirst && s.queued > 0 then [.pkg]   -- the non-blocking first look (regenerated fact)
   else
     sel.filterMap (fun c =>
       if c == "<-ctx.Done()" then (if s.ctxDone then some .ctx else none)
@@ -198,6 +198,18 @@ def run (args : List String) : String :=
   -- a token without a package type becomes a tokenless package that takes the rest of its message; the
   -- message after it is delivered as usual
   -- the client-side teardown follows a refused teardown packet (`closeTearsDownAfterWriteError`)
+  -- n queued packages and a queued connection error: each call returns what `nextPackage` allows — with the
+  -- first look at the package queue exactly the package, n times, then the error
+  | ["queued-then-error", n] | ["queued-then-error", n, _] =>
+    match n.toNat? with
+    | some n =>
+      let step (q : Nat) : String :=
+        match nextPackage nextPackageSelect nextPackageChecksClosedFirst { queued := q, connErrs := 1 } with
+        | [.pkg] => "pkg"
+        | [.connErr] => "err"
+        | _ => "pkg|err"
+      "recv=" ++ joinSep "," ((List.range (n + 1)).map (fun i => step (n - i)))
+    | none => "bad-op"
   | ["close-refused", _] =>
     if closeTearsDownAfterWriteError then "ok_closefail" else "a_closed_channel_delivers_nothing_and_answers_that_it_is_closed"
   | ["unknown-token", _, _] => "next=pkg connclose=ok reader=ended"
